@@ -141,7 +141,7 @@ func (h *harness) sectionRhel() {
 		r.Fail("", "the VEX test feed yields no advisory with a rhel-cpe-repository")
 		return
 	}
-	n := h.cfg.N(40, 400)
+	n := h.cfg.N(60, 400)
 	for i := 0; i < n && !r.Stop(); i++ {
 		v := cands[h.rnd.Intn(len(cands))]
 		repos, err := rhelRepos(ctx, []string{v.Repo.Name})
